@@ -103,12 +103,16 @@ F_STRSLICE = 'C17-string-slice-injection-json-error'
 F_REINJECT = 'C17-import-of-injection-defined-node-reinjects'
 F_MODSLICE = 'C17-slice-in-modification-injection-fails'
 F_UNITDEF = 'C17-custom-unit-definition-drops-unit-magnitude'
-ALL_FLAGS = [F_STALE, F_EMPTY, F_STRSLICE, F_REINJECT, F_MODSLICE, F_UNITDEF]
+F_RESIDUE = 'C17-multi-axis-slice-residue-reapplied-on-import-or-modification'
+ALL_FLAGS = [F_STALE, F_EMPTY, F_STRSLICE, F_REINJECT, F_MODSLICE, F_UNITDEF, F_RESIDUE]
 
 SIG_COUNT = ['Path returned invalid number of nodes:', 'Local nodes are not available for DIP import:',
              'Source with the following name does not exist:']
 SIG_CAST = ['Could not convert raw value to type:', 'Array value set to scalar node:', 'has invalid dimension',
             'IndexError', 'ValueError', 'TypeError']
+
+
+SIG_RES = ['has invalid dimension', 'IndexError', 'Array value set to scalar node:']
 
 
 class ModelFail(Exception):
@@ -238,7 +242,8 @@ def convert(v, u_from, u_to, customs):
 
 
 class MNode:
-    __slots__ = ('path', 'type', 'value', 'unit', 'opts', 'cond', 'const', 'raw', 'ref', 'origin', 'nmod', 'src_mod', 'used')
+    __slots__ = ('path', 'type', 'value', 'unit', 'opts', 'cond', 'const', 'raw', 'ref', 'origin', 'nmod', 'src_mod', 'used',
+                 'residue')
 
     def __init__(self, **kw):
         self.opts = self.cond = self.ref = None
@@ -246,6 +251,7 @@ class MNode:
         self.nmod = 0
         self.src_mod = False
         self.used = False
+        self.residue = []       # axes of a multi-axis injection slice the real node object still carries
         for k, v in kw.items():
             setattr(self, k, v)
 
@@ -314,6 +320,21 @@ def check_constraints(env, customs):
                 raise ModelFail('condition violated', ['Node does not fullfil a condition:'])
 
 
+def residue_cast(node, v, flags):
+    """recorded defect: only the first axis of the slice of `x = {ref}[i,j]` is consumed at definition; the rest is
+    applied again whenever the node object casts a value (modification, re-creation of an imported copy)"""
+    if F_RESIDUE not in flags or not node.residue:
+        return v
+    res, node.residue = node.residue, node.residue[1:]
+    try:
+        r = apply_slice(v, res)
+    except (IndexError, TypeError):
+        raise ModelFail('slice residue does not fit', SIG_RES, F_RESIDUE)
+    if vshape(r) != vshape(node.value):
+        raise ModelFail('slice residue changes the shape', SIG_RES, F_RESIDUE)
+    return r
+
+
 def interp(stmts, env, flags, remotes, where='main'):
     """run statements on env (mutated).  Raises ModelFail when the text must be / is rejected."""
     C = env.classes
@@ -352,6 +373,7 @@ def interp(stmts, env, flags, remotes, where='main'):
             if h.const:
                 raise ModelFail('modification of a constant', ['is constant and cannot be modified'])
             v = cast(py_value(h.type, st), h.type)
+            v = residue_cast(h, v, flags)
             h.value = convert(v, st.get('unit'), h.unit, customs)
             h.nmod += 1
             C.add('plain-modification')
@@ -402,6 +424,9 @@ def interp(stmts, env, flags, remotes, where='main'):
                 n = MNode(path=st['path'], type=st['type'], value=val, unit=unit, raw=copy.deepcopy(m.raw),
                           origin='inj', ref=(st.get('src'), st['query']))
                 n.src_mod = bool(m.nmod)
+                if sl and len(sl) >= 2:
+                    n.residue = [list(x) for x in sl[1:]]
+                    C.add('host-of-multi-axis-slice')
                 env.nodes[st['path']] = n
                 C.add('host-own-unit' if st.get('unit') else ('host-adopts-unit' if m.unit else 'host-and-source-unitless'))
                 C.add('injection-in-definition')
@@ -439,6 +464,7 @@ def interp(stmts, env, flags, remotes, where='main'):
                 except (ValueError, TypeError):
                     raise ModelFail('value cannot be cast', SIG_CAST, F_STALE if F_STALE in flags else None)
                 u = st.get('unit') or m.unit
+                v = residue_cast(h, v, flags)
                 h.value = convert(v, u, h.unit, customs)
                 h.nmod += 1
                 C.add('host-own-unit' if st.get('unit') else ('host-adopts-unit' if m.unit else 'host-and-source-unitless'))
@@ -467,6 +493,9 @@ def interp(stmts, env, flags, remotes, where='main'):
                 n.used = False
                 if m.nmod:
                     C.add('import-of-modified-node')
+                if m.residue:
+                    C.add('import-of-multi-axis-slice-host')
+                n.value = residue_cast(n, n.value, flags)
                 if m.ref is not None:
                     C.add('import-of-injection-defined-node')
                     if F_REINJECT in flags:
